@@ -1388,6 +1388,16 @@ func (r *Restore) PeeringSecrets(p *pbpeering.PeeringSecrets) error {
 		return fmt.Errorf("failed restoring peering secrets: %w", err)
 	}
 
+	// The stream secret of a dialing peer was generated by the accepting cluster and is never
+	// reserved locally (see peeringSecretsWriteTxn); peerings are restored before their secrets.
+	peering, err := peeringReadByIDTxn(r.tx, nil, p.PeerID)
+	if err != nil {
+		return fmt.Errorf("failed to read peering by id: %w", err)
+	}
+	if peering != nil && peering.ShouldDial() {
+		return nil
+	}
+
 	var uuids []string
 	if establishment := p.GetEstablishment().GetSecretID(); establishment != "" {
 		uuids = append(uuids, establishment)
